@@ -26,7 +26,10 @@ type catchSpec struct {
 }
 
 type descriptor struct {
-	Shape   string       `json:"shape"` // seq | par | xor | funnel (3..4 tokens reach ONE catch event one after another: the node is armed and fired again and again)
+	Shape   string       `json:"shape"` // seq | par | xor | sub | funnel (3..4 tokens reach ONE catch event one after another: the node is armed and fired again and again)
+	// Depth (shape sub): every catch-event chain sits inside Depth nested embedded
+	// sub-processes, in parallel branches of the process
+	Depth int `json:"depth,omitempty"`
 	Tokens  int          `json:"tokens,omitempty"`
 	Catches []catchSpec  `json:"catches"`
 	Taken   int          `json:"taken"` // xor: index of the branch taken
@@ -101,6 +104,46 @@ func build(d descriptor) (*gen.Graph, map[string]any) {
 		}
 		en := b.Add(gen.KEnd)
 		b.Connect(j, en)
+	case "sub":
+		// parallel branches; the catch event of each branch sits inside nested sub-processes
+		f := b.Add(gen.KPar)
+		j := b.Add(gen.KPar)
+		b.Connect(st, f)
+		for _, cs := range d.Catches {
+			cur := f
+			if cs.PreTask {
+				t := b.Add(gen.KTask)
+				b.Connect(cur, t)
+				cur = t
+			}
+			outer := b.Add(gen.KSub)
+			b.Connect(cur, outer)
+			sp, ib := outer, b.Sub()
+			sp.Inner = ib.G
+			for lvl := 1; lvl < d.Depth; lvl++ {
+				is := ib.Add(gen.KStart)
+				nsp := ib.Add(gen.KSub)
+				ie := ib.Add(gen.KEnd)
+				ib.Connect(is, nsp)
+				ib.Connect(nsp, ie)
+				nb := ib.Sub()
+				nsp.Inner = nb.G
+				ib = nb
+			}
+			is := ib.Add(gen.KStart)
+			c := ib.Add(gen.KCatch)
+			c.Defs = []gen.EventDef{cs.Def}
+			it := ib.Add(gen.KTask)
+			ie := ib.Add(gen.KEnd)
+			ib.Connect(is, c)
+			ib.Connect(c, it)
+			ib.Connect(it, ie)
+			after := b.Add(gen.KTask)
+			b.Connect(outer, after)
+			b.Connect(after, j)
+		}
+		en := b.Add(gen.KEnd)
+		b.Connect(j, en)
 	default: // xor: only branch Taken is taken, the others hold catch events never reached
 		x := b.Add(gen.KXor)
 		mrg := b.Add(gen.KXor)
@@ -130,7 +173,10 @@ func drawDef(rt *rapid.T) gen.EventDef {
 }
 
 func draw(rt *rapid.T) descriptor {
-	d := descriptor{Shape: rapid.SampledFrom([]string{"seq", "par", "xor", "funnel"}).Draw(rt, "shape"), Perturb: uint64(rapid.IntRange(0, 300).Draw(rt, "perturb"))}
+	d := descriptor{Shape: rapid.SampledFrom([]string{"seq", "par", "xor", "funnel", "sub"}).Draw(rt, "shape"), Perturb: uint64(rapid.IntRange(0, 300).Draw(rt, "perturb"))}
+	if d.Shape == "sub" {
+		d.Depth = rapid.IntRange(1, 2).Draw(rt, "depth")
+	}
 	if d.Shape == "funnel" {
 		// every round: one more token reaches the catch event (answer), then
 		// events; the catch event is armed / fired once per round
